@@ -17,6 +17,14 @@ pub struct Random<M: ManagedTypeApi + CryptoApi> {
 
 impl<M: ManagedTypeApi + CryptoApi> Default for Random<M> {
     fn default() -> Self {
+        #[cfg(feature = "verif-hooks")]
+        if let Some(seed) = crate::verif_hooks::forced_seed() {
+            return Self {
+                seed: ManagedBuffer::new_from_bytes(&seed[..]),
+                index: 0,
+            };
+        }
+
         Self {
             seed: ManagedBuffer::new_random(HASH_LEN),
             index: 0,
@@ -33,6 +41,10 @@ impl<M: ManagedTypeApi + CryptoApi> Random<M> {
     }
 
     pub fn next_usize(&mut self) -> usize {
+        #[cfg(feature = "verif-hooks")]
+        let (verif_seed_before, verif_index_before) =
+            (self.seed.to_boxed_bytes().into_vec(), self.index);
+
         if self.index + USIZE_BYTES > HASH_LEN {
             self.hash_seed();
         }
@@ -42,6 +54,8 @@ impl<M: ManagedTypeApi + CryptoApi> Random<M> {
             None => M::error_api_impl().signal_error(FAILED_COPY_ERR_MSG),
         };
         let rand = usize::top_decode(raw_buffer).unwrap_or_default();
+        #[cfg(feature = "verif-hooks")]
+        let rand = crate::verif_hooks::tap_draw(verif_seed_before, verif_index_before, rand);
 
         self.index += USIZE_BYTES;
 
